@@ -27,6 +27,10 @@ structure HSt (V : Type) where
   maps : Nat → Nat → Option (List (V × Nat)) := fun _ _ => none
   /-- `next_index` of the mapper store (`free_slots` is never filled by the code) -/
   nextIndex : Nat := 0
+  /-- the two Python lists the multiplexed join of `tee_map` keeps in its closure: `queue` (items, `None` when empty) … -/
+  jq : List V := []
+  /-- … and `has_next` (an `array('B')` of flags) -/
+  jh : List Bool := []
 
 abbrev HM (V : Type) := ExceptT Err (StateM (HSt V))
 
@@ -100,6 +104,21 @@ def iterateMap (sid : Nat) (k : Key) : HM V (List V) := do
   match s.maps sid k.idx with
   | some m => pure (m.map (·.1))
   | none => throw "ClearedSlot"
+
+/-! the lists of `tee_map`'s join: `append`, item assignment (IndexError past the end), slices (never raise) -/
+def lenQueue : HM V Nat := do return (← get).jq.length
+def queueAppend (v : V) : HM V Unit := modify fun s => { s with jq := s.jq ++ [v] }
+def hasAppend (b : Bool) : HM V Unit := modify fun s => { s with jh := s.jh ++ [b] }
+def queueSet (i : Nat) (v : V) : HM V Unit := do
+  let s ← get
+  if i < s.jq.length then set { s with jq := s.jq.set i v } else throw "IndexError"
+def hasSet (i : Nat) (b : Bool) : HM V Unit := do
+  let s ← get
+  if i < s.jh.length then set { s with jh := s.jh.set i b } else throw "IndexError"
+/-- `queue[a:b]` -/
+def queueSlice (a b : Nat) : HM V (List V) := do return ((← get).jq.take b).drop a
+/-- `has_next[a:b]` -/
+def hasSlice (a b : Nat) : HM V (List Bool) := do return ((← get).jh.take b).drop a
 
 /-- an int value used as a key component / slot index -/
 def toIdx [PyAlg V] (v : V) : HM V Nat := liftM (PyAlg.toNat v)
